@@ -124,19 +124,21 @@ struct QuietUtils : mp::NLUtils {
 };
 
 // run the real reader; returns the canonical result line (without id)
-inline std::string readWith(const std::string& path, RecHandler& h) {
+inline std::string readWith(const std::string& path, RecHandler& h, bool withMsg = false) {
   QuietUtils u;
-  std::string res;
+  std::string res, emsg;
   try {
     auto st = mp::ReadSOLFile(path, h, u);
     res = std::string("code=") + codeName(st.first) + " msg=" + (st.second.empty() ? "0" : "1");
+    emsg = st.second.substr(0, 8192);
   } catch (const std::exception& e) {
     const char* what = "exception";
     if (dynamic_cast<const std::length_error*>(&e)) what = "length_error";
     else if (dynamic_cast<const std::bad_alloc*>(&e)) what = "bad_alloc";
     res = std::string("code=EXC:") + what + " msg=0";
   }
-  return res + " | " + h.out;
+  // the error message itself (C14: it must quote file text verbatim or not at all, never as a printf format)
+  return res + " | " + h.out + (withMsg ? " || emsg=" + hexs(emsg.data(), emsg.size()) : "");
 }
 
 }  // namespace verif
